@@ -101,10 +101,13 @@ pub fn run_history(hist: &Value, out: &mut dyn Write) {
         rec.insert("i".into(), json!(i + 1));
         rec.insert("t".into(), limbs(clock::now_rel()));
         if let Some(p) = pb.as_ref() {
-            rec.insert("pos".into(), limbs(p.position()));
-            rec.insert("haslen".into(), json!(p.length().is_some()));
-            rec.insert("len".into(), limbs(p.length().unwrap_or(0)));
-            rec.insert("fin".into(), json!(p.is_finished()));
+            // a panic inside a getter poisons the bar: later getters panic too, which is data as well
+            let g = catch_unwind(AssertUnwindSafe(|| (p.position(), p.length(), p.is_finished())));
+            let (pos, len, fin) = match g { Ok(x) => x, Err(_) => { if rec["panic"] == "" { rec.insert("panic".into(), json!("getter panicked (poisoned lock)")); } (0, None, false) } };
+            rec.insert("pos".into(), limbs(pos));
+            rec.insert("haslen".into(), json!(len.is_some()));
+            rec.insert("len".into(), limbs(len.unwrap_or(0)));
+            rec.insert("fin".into(), json!(fin));
         }
         writeln!(out, "{}", Value::Object(rec)).unwrap();
     }
